@@ -20,7 +20,7 @@ CONFIGS = {
               {"compress": True, "wrapper_unions": False, "shadow": True}),
     # a second revision of v-main whose enumeration `color` has different members: two generated
     # packages in one process then define a same-named Go enum type with different tables
-    "vmain_r2": (["@rev2/v-main.yang", "v-types.yang", "v-defu.yang"], ["-generate_simple_unions"], {"compress": False, "wrapper_unions": False, "rev2": True}),
+    "vmain_r2": (["@rev2/v-main.yang", "v-types.yang", "v-defu.yang"], ["-generate_simple_unions"], {"compress": False, "wrapper_unions": False, "rev2": True, "go_package:vmain_u": True}),
     "voc_u": (["v-oc.yang"], ["-generate_simple_unions"], {"compress": False, "wrapper_unions": False}),
     "vlref_u": (["v-lref.yang"], ["-generate_simple_unions"], {"compress": False, "wrapper_unions": False, "lrefp": True, "private": True}),
     "vcolon_u": (["v-colon.yang"], ["-generate_simple_unions"], {"compress": False, "wrapper_unions": False, "colon": True, "private": True}),
@@ -28,7 +28,7 @@ CONFIGS = {
 
 REGISTER = '''//go:build verif
 
-package %(name)s
+package %(gopkg)s
 
 import (
 	"github.com/openconfig/ygot/internal/verifharness/reg"
@@ -86,13 +86,17 @@ def prepare_overlay():
                 info["generator"][name] = {"ok": False, "output": "generator does not build"}
                 continue
             yf = [os.path.join(rev2, f[len("@rev2/"):]) if f.startswith("@rev2/") else os.path.join(Y, f) for f in yfiles]
-            cmd = [genbin, "-logtostderr", "-path=" + Y, "-output_file=" + os.path.join(d, "gen.go"), "-package_name=" + name] + COMMON + flags + yf
+            # the Go package NAME (not its import path) can be shared: vmain_r2 is `package vmain_u`, so
+            # reflect.Type.String() is the same for its types as for vmain_u's (two revisions of a
+            # model in one binary, as when both are vendored under the same package name)
+            gopkg = next((k.split(":", 1)[1] for k in props if k.startswith("go_package:")), name)
+            cmd = [genbin, "-logtostderr", "-path=" + Y, "-output_file=" + os.path.join(d, "gen.go"), "-package_name=" + gopkg] + COMMON + flags + yf
             q = subprocess.run(cmd, cwd=d, stdout=subprocess.PIPE, stderr=subprocess.STDOUT, text=True)
             ok = q.returncode == 0 and os.path.exists(os.path.join(d, "gen.go"))
             info["generator"][name] = {"ok": ok, "output": q.stdout[-1500:], "flags": flags, "yang": yfiles}
             if ok:
                 fl = ", ".join('"%s": %s' % (k, "true" if v else "false") for k, v in sorted(props.items()))
-                open(os.path.join(d, "zz_register.go"), "w").write(REGISTER % {"name": name, "flags": fl})
+                open(os.path.join(d, "zz_register.go"), "w").write(REGISTER % {"name": name, "gopkg": gopkg, "flags": fl})
         imports = "\n".join('\t_ "github.com/openconfig/ygot/internal/verifharness/gen/%s"' % n
                             for n, r in sorted(info["generator"].items()) if r["ok"])
         open(os.path.join(gen_root, "zz_gen_imports.go"), "w").write(
